@@ -11,6 +11,7 @@ import (
 	"sort"
 	"strings"
 	"sync"
+	"sync/atomic"
 	"time"
 	"unicode"
 
@@ -28,6 +29,7 @@ type World struct {
 	LoadDur time.Duration
 	Repo    string
 	Harness string
+	StopOnViolation bool
 }
 
 func harnessOverlay(harnessDir string) (map[string][]string, error) {
@@ -120,6 +122,7 @@ type HarnessResult struct {
 	Samples  []string
 	MaxDepth int
 	SampleInputs []SampleInput
+	Stopped      bool // exploration was cut short after the first violation
 }
 
 type AssertAgg struct {
@@ -155,12 +158,14 @@ func (w *World) RunHarness(pkg, fn string, opts *RunOpts, pool *SolverPool, work
 	cond := sync.NewCond(&mu)
 	var wg sync.WaitGroup
 	var fatal error
+	var abort int32
 	for i := 0; i < workers; i++ {
 		wg.Add(1)
 		go func() {
 			defer wg.Done()
 			solver := pool.New()
 			ex := NewExec(w.ld, solver, w.hooks, opts)
+			ex.abort = &abort
 			ex.emit = func(np []int) {
 				mu.Lock()
 				queue = append(queue, workItem{np})
@@ -172,7 +177,7 @@ func (w *World) RunHarness(pkg, fn string, opts *RunOpts, pool *SolverPool, work
 				for len(queue) == 0 && inflight > 0 && fatal == nil {
 					cond.Wait()
 				}
-				if fatal != nil || (len(queue) == 0 && inflight == 0) {
+				if fatal != nil || abort != 0 || (len(queue) == 0 && inflight == 0) {
 					mu.Unlock()
 					cond.Broadcast()
 					return
@@ -221,6 +226,10 @@ func (w *World) RunHarness(pkg, fn string, opts *RunOpts, pool *SolverPool, work
 							ag.Trivial++
 						case "violated":
 							ag.Violated++
+							if w.StopOnViolation && hr.Paths > 0 {
+								atomic.StoreInt32(&abort, 1)
+								hr.Stopped = true
+							}
 							if len(ag.Models) < 5 {
 								ag.Models = append(ag.Models, a.Model)
 								ag.Details = append(ag.Details, a.Detail)
